@@ -39,6 +39,30 @@ func init() {
 		"the instant exactly one lifetime after the last outbound datagram is left unconstrained (the statement leaves the boundary open)",
 		"pion/logging has empty bodies; sync.RWMutex is a state-tracking no-op (sequential use)",
 	}
+	register(&Prop{ID: "C13", Pkgs: vnetPkgs, InitPkgs: []string{"vnet"},
+		Runs: func(tier string) []gosym.RunConfig {
+			pl := []int64{24}
+			if tier == "thorough" {
+				pl = []int64{16, 24, 28}
+			}
+			var rs []gosym.RunConfig
+			for _, p := range pl {
+				for ns := int64(0); ns <= 2; ns++ {
+					rs = append(rs, gosym.RunConfig{Name: fmt.Sprintf("router-addnic-step-p%d-s%d", p, ns), Entry: "VerifRouterAddNIC", Unwind: 300, AssertPrefix: "C13:", Params: map[string]int64{"prefix": p, "nstatic": ns}})
+				}
+			}
+			k := int64(3)
+			if tier == "thorough" {
+				k = 5
+			}
+			rs = append(rs, gosym.RunConfig{Name: fmt.Sprintf("connmap-k%d", k), Entry: "VerifConnMap", Unwind: 8, AssertPrefix: "C13:", Params: map[string]int64{"k": k}})
+			return rs
+		},
+		Bounds: func(tier string) []string {
+			return []string{"host side: histories of 3 (thorough 5) operations bind / look-up / release on the socket table with 2 specific IPs + the wildcard x 2 ports, symbolic choice per operation", "router side: one attachment step from an arbitrary router state: subnet 10.b.c.0/24 (thorough: also /16, /28), automatic counter 0..255, two NICs already attached at arbitrary addresses of the subnet, the new NIC with 0..2 arbitrary static addresses"}
+		},
+		Assume: []string{"IP.String is an injective constructor of the string datatype (map keys)", "net.CIDRMask / IP.Mask / IPNet.Contains are executed from the standard library's own SSA"},
+		Outside: []string{"more than two NICs attached before the step", "IPv6 subnets", "the user supplying the same static address twice (not constrained by the property)"}})
 	for _, id := range []string{"C02", "C03"} {
 		register(&Prop{ID: id, Pkgs: vnetPkgs, InitPkgs: []string{"vnet"}, InstrDirs: []string{"vnet"}, Runs: natRuns(id + ":"), Bounds: natBounds, Assume: natAssume,
 			Outside: []string{"more than k datagrams (in particular more than 16384 allocations: see DESIGN.md)", "more than 2 internal endpoints / 3 remotes", "IPv6"}})
